@@ -26,8 +26,8 @@ def Dom (op : Op) (a b : ℝ → ℝ) (t : ℝ) : Prop :=
   | .tan => Real.cos (a t) ≠ 0
   | .asin | .acos => -1 < a t ∧ a t < 1
   | .pow => ∃ n : ℤ, (∀ s, b s = n) ∧ (a t ≠ 0 ∨ 0 ≤ n)
-  -- the real kernel is the derivative only for a positive base (finding C06:nth-root-negative-base)
-  | .nthRoot => ∃ c : ℝ, c ≠ 0 ∧ (∀ s, b s = c) ∧ 0 < a t
+  -- positive base, or negative base with an odd natural root index (kernel fixed in 426a6f0)
+  | .nthRoot => ∃ c : ℝ, c ≠ 0 ∧ (∀ s, b s = c) ∧ (0 < a t ∨ (a t < 0 ∧ ∃ k : ℕ, c = 2 * (k : ℝ) + 1))
   | .mod => ∃ c : ℝ, c ≠ 0 ∧ (∀ s, b s = c) ∧ ∀ k : ℤ, a t / c ≠ k
   | .atan2 => 0 < b t ∨ a t ≠ 0
   | _ => False
@@ -264,29 +264,35 @@ theorem constVar_kernel (av bv ov ad bd : ℝ) :
 variable {α : Type}
 
 /-- **feature_is_branch_gradient.** For EVERY compatibility oracle `F` (the geometry of
-    `Feature::push` is arbitrary), every `dedup` that only keeps derivatives of existing elements, and
-    every scratch content — provided (H1) every binary array-wise clause has no more operand-feature
-    pairs than `count_simd`, and (H2) the output value row of every OP_SQRT clause is replicated —
+    `Feature::push` is arbitrary) and every `dedup` that only keeps derivatives of existing elements,
     every feature at every slot has a derivative that is a *branch gradient*: the result of the
     kernels along the tape with one operand chosen at every tied min/max occurrence and the
-    smaller/larger operand elsewhere (`BranchSet`).
+    smaller/larger operand elsewhere (`BranchSet`).  No hypothesis on scratch remains: since
+    aa9f57c / 3ea66fb both array-wise paths call `setCount(count)` and replicate the clause's own
+    value row, so the model (`featUnary`, `featBinary`) reads no lane it did not compute.
 
-    The real code establishes neither H1 (no `setCount` in the binary path) nor H2 (`filled[]`
-    replicates only operand rows): findings C06:feature-binary-setCount, C06:feature-sqrt-stale-ov.
     The selection is per occurrence (tree unfolding): the per-clause-consistent statement is false
-    for the model and the code (binary path merges without `Feature::check`,
-    finding C06:feature-binary-incompatible-merge). -/
+    for the model and the code — the binary path merges epsilons without `Feature::check`
+    (recorded finding C06:feature-binary-incompatible-merge). -/
 theorem feature_is_branch_gradient (O : DOps α) (F : FeatOracle α) (dedup : List (Feat α) → List (Feat α))
     (hdedup : ∀ l, ∀ g ∈ dedup l, ∃ f ∈ l, g.deriv = f.deriv)
-    (cv : Bool) (N simd : Nat) (staleD : Nat → Nat → V3 α) (staleV : Nat → Nat → α) (v : Nat → α)
-    (seed : Nat → V3 α) (t : List Clause) (st : FeatState α)
-    (hinit : ∀ k, ∀ f ∈ st.f k, f.deriv = seed k)
-    (hN : 0 < N)
-    (H1 : FeatCountsOK O F dedup cv N simd staleD staleV v t st)
-    (H2 : ∀ c ∈ t, c.op = Op.sqrt → ∀ lane, staleV c.id lane = v c.id) :
-    ∀ k, ∀ f ∈ (featList O F dedup cv N simd staleD staleV v t st).f k,
-      BranchSet O cv v seed t k f.deriv :=
-  Libfive.FeatureProofs.featList_branch O F dedup hdedup cv N simd staleD staleV v seed t st hinit hN H1 H2
+    (cv : Bool) (N simd : Nat) (v : Nat → α) (seed : Nat → V3 α) (t : List Clause) (st : FeatState α)
+    (hinit : ∀ k, ∀ f ∈ st.f k, f.deriv = seed k) :
+    ∀ k, ∀ f ∈ (featList O F dedup cv N simd v t st).f k, BranchSet O cv v seed t k f.deriv :=
+  Libfive.FeatureProofs.featList_branch O F dedup hdedup cv N simd v seed t st hinit
+
+/-- every lane the array-wise paths read back (`lane < count`) lies below the `count_simd` that
+    `setCount(count)` establishes, i.e. was computed by the kernel call of the same `run()` -/
+theorem used_lanes_computed (simd count lane : Nat) (h : lane < count) : lane < simdRound simd count := by
+  unfold simdRound
+  by_cases hs : simd = 0
+  · simp [hs, h]
+  · simp only [hs, if_false]
+    have hpos : 0 < simd := Nat.pos_of_ne_zero hs
+    have h1 := Nat.div_add_mod (count + simd - 1) simd
+    have h2 := Nat.mod_lt (count + simd - 1) hpos
+    rw [Nat.mul_comm] at h1
+    omega
 
 /-- `FeatureEvaluator::features` only reports derivatives of raw features -/
 theorem features_subset (veq : V3 α → V3 α → Bool) (fs : List (Feat α)) :
@@ -325,6 +331,8 @@ example : derivRow RO false (fun k => if k = 2 then 5 else if k = 3 then 7 else 
 example : jacSlot 256 770 = (1, 2, 0) := by decide
 example : jacIndex 256 (1, 2, 0) = 770 := by decide
 example : Dom Op.pow (fun s => s) (fun _ => ((3 : ℤ) : ℝ)) 0 := ⟨3, fun _ => rfl, Or.inr (by decide)⟩
+example : Dom Op.nthRoot (fun s => s - 8) (fun _ => 3) 0 :=
+  ⟨3, by norm_num, fun _ => rfl, Or.inr ⟨by norm_num, 1, by norm_num⟩⟩
 example : Dom Op.mod (fun s => s + 1 / 2) (fun _ => 1) 0 := by
   refine ⟨1, one_ne_zero, fun _ => rfl, ?_⟩
   intro k h
